@@ -159,6 +159,24 @@ def generate(seed, tier, index):
     for path in rf.sample(sorted(files), min(2, len(files))):
         ops.append(["fs_chdir", rf.choice(["", "c"])])
         ops.append(["fs_load", "ld%d" % len(ops), objects[files[path]], path, {"abs": rf.chance(0.3)}])
+    if rf.chance(0.3):
+        # a file written again under the same name holds the new object, however the path is spelled and wherever the
+        # process stands; also when the file is one part of a multi-file system
+        ret = C.retuned_entry(entry, rf.sub("ret"))
+        ops.append(["fs_build", "net2", "network", {"d": _get(ret["system"], ["network", "rdnetwork"]), "pus": sys_eff}])
+        objects["net2"] = "network"
+        d = rf.choice(DIRS)
+        pre = (d + "/") if d else ""
+        a1 = rf.chance(0.5)
+        ops += [["fs_chdir", rf.choice(DIRS)], ["fs_save", "net", pre + "over.json", {"abs": a1}],
+                ["fs_load", "ld%d" % len(ops), "network", pre + "over.json", {"abs": rf.chance(0.5)}],
+                ["fs_chdir", rf.choice(DIRS)], ["fs_save", "net2", pre + "over.json", {"abs": not a1}],
+                ["fs_load", "ld%d" % (len(ops) + 4), "network", pre + "over.json", {"abs": rf.chance(0.5)}]]
+        ops += [["fs_split", "sys", pre + "otop.json", {"network": "onet.json"}],
+                ["fs_load", "ld%d" % (len(ops) + 1), "system", pre + "otop.json", {"abs": rf.chance(0.5)}],
+                ["fs_chdir", rf.choice(DIRS)], ["fs_save", "net2", pre + "onet.json", {"abs": rf.chance(0.5)}],
+                ["fs_load", "ld%d" % (len(ops) + 4), "system", pre + "otop.json", {"abs": rf.chance(0.5)}]]
+        faults.add("file_rewritten_under_the_same_name")
     eps = [{"obj": 0, "kind": kind, "via": "LibRDEngine", "script": 0, "ops": ops}]
     import copy
     entry2 = copy.deepcopy(entry)
@@ -179,6 +197,7 @@ def check(case, results):
     evs = {ev["i"]: ev for ev in res.events}
     built = {}      # object name -> phys
     files = {}      # M-fs: path -> object name
+    parts = {}      # top file of a multi-file system -> path of its network part
     loads = 0
     ctx = {"class": "violation", "lifetime": 0, "episode": 0}
     for oi, op in enumerate(ops):
@@ -240,7 +259,13 @@ def check(case, results):
             if name == "fs_save" and case["meta"]["objects"].get(op[1]) == "trajectory" and not pth.endswith(".json"):
                 pth += ".json"
             files[pth] = op[1]
+            if name == "fs_split" and op[3].get("network"):
+                import posixpath
+                pp = posixpath.normpath(posixpath.join(posixpath.dirname(pth), op[3]["network"]))
+                files.pop(pp, None)
+                parts[pth] = pp
         elif name in ("fs_move", "fs_copy"):
+            parts = {}
             src, dst = op[1], op[2]
             nf = {}
             for p, nm in files.items():
@@ -255,6 +280,10 @@ def check(case, results):
             want = built.get(files.get(op[3]))
             if want is None:
                 continue
+            if op[3] in parts and built.get(files.get(parts[op[3]])) is not None:
+                # the network part of this multi-file system was written again since: the system now has that network
+                want = dict(want, network=built[files[parts[op[3]]]])
+                stats["part_file_rewritten"] = stats.get("part_file_rewritten", 0) + 1
             loads += 1
             stats["kinds_loaded"][op[2]] = stats["kinds_loaded"].get(op[2], 0) + 1
             d = P.diff(want, ev["phys"])
